@@ -1,6 +1,6 @@
 CONSTANTS
-  Types <- T2
-  TypeSeq <- T2s
+  Types <- T1
+  TypeSeq <- T1s
   Owners <- O2
   SubOpts <- OptOnce
   AutoOpts <- AutoNone
@@ -8,8 +8,8 @@ CONSTANTS
   UnsubModes = {"handler", "handlerT", "eid", "eidT", "pair"}
   Forms = {"inst"}
   NoErrs = {FALSE}
-  RaiseTypes <- TAB
-  SubTypes <- TAB
+  RaiseTypes <- TA
+  SubTypes <- TA
   MaxSubs = 2
   MaxRaises = 2
   MaxUnsubs = 1
